@@ -290,6 +290,14 @@ def run_whole(ctx, n_files=None, tag="w"):
         if not c["meant_legal"]:
             # the workbook stream sits inside a storage of a file with a hierarchy: not the root's Workbook / Book
             ctx.count("whole:workbook_stream_nested(model tie only)")
+            # the model answers with the ranges of the sheets IT found; the implementation is asked for the sheets the
+            # generator meant.  When the root holds another (junk) stream called Book / Workbook that happens to read as a
+            # workbook without sheets (an empty stream), both open it and the implementation's answers for the meant
+            # sheets are err:notfound: the same observation, not a broken tie
+            if (m is not None and ";;" in m and len(m.split(";;")) == 2 and i is not None and i.startswith(m + ";;")
+                    and all(x == "err:notfound" for x in i.split(";;")[2:])):
+                ctx.count("whole:workbook_stream_nested:other root stream opens as an empty workbook")
+                i = m
             if not same_open(c02, i, m):
                 ctx.disagreements.append({"function": "whole:xls_open_model(nested workbook stream)", "case": case,
                                           "impl": (i or "")[:600], "model": (m or "")[:600]})
